@@ -22,7 +22,8 @@ Record range_inv (s : state) : Prop := {
   rg_sess : forall sid x, sessions s !! sid = Some x ->
             0 <= ss_up x /\ 0 <= ss_down x /\ ss_up x + ss_down x < MAXINT /\ not_blocked s (ss_node x);
   (* registered nodes are ordinary accounts *)
-  rg_node : forall a n, get_node s a = Some n -> not_blocked s a;
+  rg_node_act : forall a n, node_act s !! a = Some n -> not_blocked s (nd_addr n);
+  rg_node_inact : forall a n, node_inact s !! a = Some n -> not_blocked s (nd_addr n);
   (* every scheduled inflation entry passes the SDK's parameter validation (custommint genesis validation) *)
   rg_mint : forall t it, inflations s !! t = Some it -> mint_params_valid (inf_max it) (inf_min it) (inf_rate it) = true }.
 
